@@ -81,6 +81,7 @@ Print Assumptions c14_unique_owner_refuted.
 Theorem c14_refuted_witness_is_outside_the_window :
   windowedb c16 (init (unb c16) (wrap_progs (Z.to_nat 65535))) (wrap_sched (Z.to_nat 65535)) = false.
 Proof. exact wrap_witness_outside_window. Qed.
+Print Assumptions c14_refuted_witness_is_outside_the_window.
 Example c14_window_example : no_wrap_in_window c16 (wrap_progs (Z.to_nat 65534)) (wrap_sched (Z.to_nat 65534)).
 Proof. exact wrap_control_inside_window. Qed.
 
@@ -171,8 +172,10 @@ Print Assumptions c14_accessor_releases_once.
 (* what the proofs use of the source: move assignment exchanges the two accessors, the move constructor disarms its source *)
 Theorem c14_accessor_move_assign_is_swap : forall a b, acc_assign (a, b) = (b, a).
 Proof. exact id_accessor_assign_is_swap. Qed.
+Print Assumptions c14_accessor_move_assign_is_swap.
 Theorem c14_accessor_move_ctor_disarms_source : forall o, acc_ctor o = (o, (false, snd o)).
 Proof. exact id_accessor_move_ctor_disarms_source. Qed.
+Print Assumptions c14_accessor_move_ctor_disarms_source.
 
 (* the memory orders the argument relies on are the ones in the source (regenerated site tables): head loads
    acquire, pop CAS acq_rel, push CAS release/acquire, take is a strong CAS *)
@@ -238,18 +241,23 @@ Print Assumptions c14_deposit_item_publication.
 Theorem c14_link_publication_orders : forall o_push o_head,
   id_link_safe Relaxed o_push o_head Relaxed = has_release o_push && has_acquire o_head.
 Proof. exact id_link_safe_iff. Qed.
+Print Assumptions c14_link_publication_orders.
 Theorem c14_link_publication_relaxed_push_refuted :
   exists sch, RA.final (RA.run (RA.init (id_link_prog Relaxed Relaxed Acquire Relaxed)) sch) = true /\
               id_link_bad (RA.result (RA.run (RA.init (id_link_prog Relaxed Relaxed Acquire Relaxed)) sch)) = true.
 Proof. exact id_link_relaxed_push_witness. Qed.
+Print Assumptions c14_link_publication_relaxed_push_refuted.
 Theorem c14_handover_relaxed_head_load_refuted :
   exists sch, RA.final (RA.run (RA.init (id_handover_prog Relaxed Release Relaxed)) sch) = true /\
               id_handover_bad (RA.result (RA.run (RA.init (id_handover_prog Relaxed Release Relaxed)) sch)) = true.
 Proof. exact id_handover_relaxed_load_witness. Qed.
+Print Assumptions c14_handover_relaxed_head_load_refuted.
 Theorem c14_deposit_item_needs_client_channel : forall o_cst o_cld,
   box_take_safe o_emplace_version o_take_cas o_cst o_cld = has_release o_cst && has_acquire o_cld.
 Proof. exact box_take_safe_iff. Qed.
+Print Assumptions c14_deposit_item_needs_client_channel.
 Theorem c14_deposit_item_relaxed_channel_refuted :
   exists sch, RA.final (RA.run (RA.init (box_take_prog Relaxed Relaxed Relaxed Relaxed)) sch) = true /\
               box_take_bad (RA.result (RA.run (RA.init (box_take_prog Relaxed Relaxed Relaxed Relaxed)) sch)) = true.
 Proof. exact box_take_relaxed_channel_witness. Qed.
+Print Assumptions c14_deposit_item_relaxed_channel_refuted.
